@@ -9578,15 +9578,20 @@ def write(node, f, pretty=True, **kwargs):
     if pretty:
         _pretty_print(root)
     tree = ElementTree(root)
+    gz = None
     try:
         if f.lower().endswith("svgz"):
             import gzip
 
-            f = gzip.open(f, "wb")
+            gz = f = gzip.open(f, "wb")
     except AttributeError:
         # might be a pathlib.Path()
         pass
-    tree.write(f, **kwargs)
+    try:
+        tree.write(f, **kwargs)
+    finally:
+        if gz is not None:
+            gz.close()  # Without the close the gzip trailer is never written.
 
 
 def _write_node(node, xml_tree=None, viewport_transform=None):
